@@ -8,11 +8,12 @@ CHECKS["C01"] = dict(
     level_text=("Generated-input search against the M-TS reference model through the public cesium API on an in-memory filesystem: "
                 "every read (db.Read and manual iterator loops) after commits, at the end and after close+reopen must equal the model byte for byte. "
                 "Scripts are sampled; no absence claim."),
-    level_note="Trusted: the reference model (harness/cesium/tsm), x/io/fs MemFS as the storage medium, rapid. Auto-index (wall-clock) writers are excluded; one writer per index group at a time (contention is C05).",
+    level_note="Trusted: the reference model (harness/cesium/tsm), x/io/fs MemFS as the storage medium, rapid. Auto-index writers (timestamps from the node's clock) have a test of their own, TestC01AutoIndex, whose oracle learns the timestamps after each commit (count, order, lower bound, agreement of index and data positions); one writer per index group at a time (contention is C05).",
     rule=("rapid draws 1-2 index groups with 0-3 data channels (10 fixed + 3 variable-length types), a file-size cap from {16B..1KiB, default}, and <=40 operations "
           "open(writer in a gap: before/between/after/adjacent; data-only writers on existing index samples)/write(1-40 samples, generated spacing)/commit/close/reopen/read. "
           "Non-trivial = a script with >=2 commits on some channel and a read with a bound strictly inside stored data; distinct by script hash."),
     assumptions=["writes obey the documented rules of writes (one series per writer channel, equal lengths, increasing timestamps >= start)",
                  "a step that returns an error ends the script and is counted as discarded, not as a violation (the property conditions on successful writes)"],
-    tests=[dict(name="TestC01", quick=dict(cases=600, shards=4), thorough=dict(cases=5000, shards=16, timeout=2400))],
+    tests=[dict(name="TestC01", quick=dict(cases=600, shards=4), thorough=dict(cases=5000, shards=16, timeout=2400)),
+           dict(name="TestC01AutoIndex", quick=dict(cases=500, shards=2), thorough=dict(cases=5000, shards=8, timeout=2400))],
 )
